@@ -696,7 +696,6 @@ inst!(deallocate_up4_nodealloc, ob_deallocate, LogAlloc, SUp4NoDe, 1, 128);
 
 inst!(bump_alloc_up1_k2, unwind 4, ob_bump_alloc, LogAlloc, SUp1, 2, 64, 200, true);
 inst!(bump_alloc_dn8_k2, unwind 4, ob_bump_alloc_nogrow, LogAlloc<u64>, SDn8, 2, 64, 200);
-inst!(bump_alloc_dn1_k1, unwind 3, ob_bump_alloc, LogAlloc, SDn1, 1, 64, 100, true);
 inst!(bump_alloc_up8_k3, unwind 5, ob_bump_alloc, LogAlloc, SUp8, 3, 64, 120, false);
 
 inst!(reset_up1_k3, unwind 5, ob_reset, LogAlloc, SUp1, 3, 64);
